@@ -185,6 +185,7 @@ io_status_t MiniPacketTunnelIOGateway :: DoOutputImplementation(uint32 maxBytes)
                if (defBuf()->GetNumBytes() < writeSize)  // no sense sending deflated data if it didn't actually change anything!
                {
                   memcpy(defBuf()->GetBuffer(), writeBuf, PACKET_HEADER_SIZE);
+                  DefaultEndianConverter::Export(_sendPacketIDCounter|(((uint32)_sendCompressionLevel)<<24), &defBuf()->GetBuffer()[2*sizeof(uint32)]);  // in case an earlier, blocked attempt to send this packet patched the header to say "not compressed"
                   writeBuf  = defBuf()->GetBuffer();
                   writeSize = defBuf()->GetNumBytes();
                }
